@@ -52,16 +52,21 @@ def _file_body(draw, heads, globals_all, file_labels, depth, files_left, marker)
         if not heads:
             break
         head = heads.pop(0)
-        if draw(st.integers(0, 3)) == 0 and file_labels:
-            # a file label can open a region as well
+        own_region = False
+        if draw(st.integers(0, 1)) == 0 and file_labels:
+            # a file label can open a region as well (the same name may do so in every file)
             fl = draw(st.sampled_from(sorted(file_labels)))
             file_labels.discard(fl)
             items.append({'t': 'label', 'name': fl, 'defines': fl})
-        items.append({'t': 'label', 'name': head})
+            own_region = draw(st.booleans())
+        if own_region:
+            heads.insert(0, head)       # the region that follows belongs to the file label alone
+        else:
+            items.append({'t': 'label', 'name': head})
         locs = draw(st.lists(st.sampled_from(['.' + b for b in BASES]), min_size=0, max_size=3, unique=True))
         body = [{'t': 'label', 'name': n} for n in locs]
         for _ in range(draw(st.integers(1, 4))):
-            visible = list(globals_all) + locs + sorted(marker['file_defined'])
+            visible = list(globals_all) + locs + sorted(marker['file_defined']) * 2
             body.insert(draw(st.integers(0, len(body))), probe(draw(st.sampled_from(visible)), draw(st.sampled_from([0, 0, 1]))))
         for _ in range(draw(st.integers(0, 2))):
             marker['n'] += 1
